@@ -14,6 +14,7 @@ CONSTANTS
   EarlyUnreg = FALSE
   ClosedOnlyWait = FALSE
   StaleOverwrite = FALSE
+  NoneTimeoutRejected = FALSE
   Hist = FALSE
 INVARIANT TypeOK
 INVARIANT Inv_AllDead
@@ -21,4 +22,5 @@ INVARIANT Inv_RunIsolated
 INVARIANT Inv_NoWorkToDead
 INVARIANT Inv_RestartedGetWork
 INVARIANT Inv_NoLeak
+INVARIANT Inv_Configurable
 CHECK_DEADLOCK FALSE
